@@ -91,6 +91,15 @@ def _run(case):
     from pathlib import Path
     tmp = tempfile.mkdtemp(prefix="pamiq_c07l_")
 
+    def acq_since(thread, start):
+        """the operation's linearisation point: its (first) acquisition of the collector's lock since it began; an
+        operation that never took the lock is placed where it began"""
+        for i in range(start, len(sched.trace)):
+            e = sched.trace[i]
+            if e[0] == thread and e[1] == "acquire":
+                return i
+        return start - 0.25
+
     def acq_index(thread):
         # index in the trace of the latest 'acquire collector' by this thread
         for i in range(len(sched.trace) - 1, -1, -1):
@@ -104,8 +113,9 @@ def _run(case):
         try:
             for ident, t in case["collects"]:
                 now["t"] = t                      # the clock value this collect reads (set just before the call)
+                start = len(sched.trace)
                 coll.collect(ident)
-                log.append({"op": ["collect", ident, t], "out": ["none"], "stamp": acq_index("collector")})
+                log.append({"op": ["collect", ident, t], "out": ["none"], "stamp": acq_since("collector", start)})
         finally:
             sys.settrace(None)
 
@@ -114,6 +124,7 @@ def _run(case):
         try:
             for n, op in enumerate(case["consumer"]):
                 before = len(adds)
+                start = len(sched.trace)
                 if op[0] == "update":
                     user.update()
                 elif op[0] == "get":
@@ -123,7 +134,7 @@ def _run(case):
                 if op[0] == "count":
                     log.append({"op": op, "out": ["count", int(user.count_data_added_since(op[1] / TICK))], "stamp": None})
                 else:
-                    log.append({"op": op, "out": ["adds", list(adds[before:])], "stamp": acq_index("consumer")})
+                    log.append({"op": op, "out": ["adds", list(adds[before:])], "stamp": acq_since("consumer", start)})
         finally:
             sys.settrace(None)
 
